@@ -31,7 +31,8 @@ GATE_COLORS = {"AND": "#E88E8E", "OR": "#50da8b", "XOR": "#50da8b", "NAND": "#FF
 NUM_OPS = ["EQUALS", "DOES_NOT_EQUAL", "GREATER_THAN", "LESS_THAN", "GREATER_THAN_OR_EQUAL_TO",
            "LESS_THAN_OR_EQUAL_TO"]
 OP_TEXT = {"EQUALS": "=", "DOES_NOT_EQUAL": "!=", "GREATER_THAN": ">", "LESS_THAN": "<",
-           "GREATER_THAN_OR_EQUAL_TO": ">=", "LESS_THAN_OR_EQUAL_TO": "<="}
+           "GREATER_THAN_OR_EQUAL_TO": ">=", "LESS_THAN_OR_EQUAL_TO": "<=",
+           "ONE_OF": "IN", "NONE_OF": "NOT IN", "CONTAINS": "CONTAINS", "DOES_NOT_CONTAIN": "DOES NOT CONTAIN"}
 
 # ----------------------------------------------------------------------------------------------- generation
 
@@ -248,7 +249,15 @@ def gen_cases(rng, n):
 
 # ----------------------------------------------------------------------------------------------- rendering
 
+def _norm_hex(h):
+    """#abc and #aabbcc denote one colour; letter case is irrelevant"""
+    h = h.lower()
+    return "#" + "".join(ch * 2 for ch in h[1:]) if len(h) == 4 else h
+
+
 def _hex(c):
+    if c % 3 == 2:
+        return "#%x%x%x" % (1 + c, 15 - c, (7 * c) % 16)      # the three-digit form (digits differ)
     return "#%02x%02x%02x" % (16 + 20 * c, 200 - 10 * c, 90 + 7 * c)
 
 
@@ -290,6 +299,13 @@ def render(case, rng):
             left, right, op = {"ref": aref(l) + ".object_promise"}, {"value": None}, "DOES_NOT_EQUAL"
         elif l is None and r is None:
             left = {"ref": "$edge.number"}           # thread variable: not an action operand
+        elif (l is None) != (r is None) and rng.random() < 0.3:
+            # the literal is a LIST of numbers (ints and a decimal), compared by membership / containment
+            lst = [k, k + 1, 2.5][:rng.randint(1, 3)]
+            if r is None:
+                right, op = {"value": lst}, rng.choice(["ONE_OF", "NONE_OF"])
+            else:
+                left, op = {"value": lst}, rng.choice(["CONTAINS", "DOES_NOT_CONTAIN"])
         obj = {"compare": {"left": left, "right": right, "operator": op}}
         if rng.random() < 0.3:
             obj["description"] = "dependency %d" % k
@@ -583,10 +599,11 @@ class Abstraction:
         return "CapCp %d" % self.r["cap_cp"][text]
 
     def colour(self, text):
-        if text == "#ffffff":
+        if _norm_hex(text) == "#ffffff":
             return "White"
-        if text in self.r["hex"]:
-            return "Hex %d" % self.r["hex"][text]
+        byn = {_norm_hex(k): v for k, v in self.r["hex"].items()}
+        if _norm_hex(text) in byn:
+            return "Hex %d" % byn[_norm_hex(text)]
         raise ValueError("unknown colour " + text)
 
 
@@ -838,7 +855,7 @@ def spec_check(case, res):
                 return "C20: action %s drawn at %r" % (n, (q[2], q[3]))
             p = party[int(n)]
             want = "#ffffff" if p is None or case["parties"][p] is None else _hex(case["parties"][p])
-            if q[4] != want:
+            if not isinstance(q[4], str) or _norm_hex(q[4]) != _norm_hex(want):
                 return "C20: action %s filled %s, expected %s" % (n, q[4], want)
             shape_of[rid] = n
         elif q[0] == "shape" and q[1] == "circle":
